@@ -706,6 +706,11 @@ class ExcelInPython:
             column_number = row_number
             row_number = None
 
+        # Отрицательные номера и номера за пределами диапазона - это #REF!, а не отсчет с конца списка
+        if row_number is not None and not 0 <= row_number <= len(array) \\
+                or column_number is not None and array and not 0 <= column_number <= len(array[0]):
+            return '#REF!'
+
         try:
             # Если не указаны номер столбца/строки, берем значения из всех столбцов/строк
             row = [array[row_number - 1]] if row_number else array
